@@ -383,24 +383,24 @@ func checkC19(w *World, r *Result) {
 			// filtering loop: `if !seen[d.ID] { seen[d.ID] = true; Y = append(Y, d) }`
 			apps := appendStmts(info, s.Body, "")
 			if len(apps) == 1 {
-				var guard *ast.IfStmt
-				ast.Inspect(s.Body, func(n ast.Node) bool {
-					if is, ok := n.(*ast.IfStmt); ok && is.Body.Pos() <= apps[0].Pos() && apps[0].End() <= is.Body.End() {
-						guard = is
-					}
-					return true
-				})
 				elemName := ""
 				if id := identOf(s.Value); id != nil {
 					elemName = id.Name
 				}
-				if guard != nil {
-					if set, okk := membershipTest(info, guard, elemName); set != "" && okk {
-						deduped = true
-						dedupPos = s
-						cur = es(apps[0].Lhs[0])
+				filtered := false
+				for _, c := range pathConds(fi.Decl, apps[0]) {
+					if c.expr == nil || c.truth || c.loop {
 						continue
 					}
+					if m, key := mapMembershipExpr(info, fi.Decl, c.expr); m != nil && es(key) == elemName+".ID" {
+						filtered = true
+					}
+				}
+				if filtered {
+					deduped = true
+					dedupPos = s
+					cur = es(apps[0].Lhs[0])
+					continue
 				}
 			}
 			Undecided("loop over %s at %s neither emits nor filters by ID (shape not recognised)", cur, w.Pos(s.Pos()))
@@ -543,83 +543,102 @@ func checkEmission(w *World, r *Result, fi *FuncInfo, loop *ast.RangeStmt, slice
 		}
 		nContent++
 		cons := "write of " + elem + ".Content"
-		// enclosing if with a membership test keyed by elem.ID
-		var guard *ast.IfStmt
-		var block *ast.BlockStmt
-		for i := len(wr.path) - 1; i >= 0; i-- {
-			if b, ok := wr.path[i].(*ast.BlockStmt); ok && block == nil {
-				block = b
+		// the conditions of the path to the write: one of them must be a failed membership test on a set keyed by
+		// elem.ID (`if !seen[d.ID] {…}`, `if seen[d.ID] {continue}`, `if _, ok := seen[d.ID]; !ok`, `x := seen[d.ID]` …)
+		condsOf := func(n ast.Node) ([]pcond, []string) {
+			cs := pathConds(fi.Decl, n)
+			for i, c := range cs { // `seen == false`
+				if be, ok := c.expr.(*ast.BinaryExpr); ok && (be.Op == token.EQL || be.Op == token.NEQ) {
+					if tv := info.Types[be.Y]; tv.Value != nil && tv.Value.Kind() == constant.Bool {
+						cs[i].expr = ast.Unparen(be.X)
+						cs[i].truth = c.truth == (constant.BoolVal(tv.Value) == (be.Op == token.EQL))
+					}
+				}
 			}
-			if is, ok := wr.path[i].(*ast.IfStmt); ok {
-				guard = is
-				break
+			return cs, condSetN(info, cs, nil)
+		}
+		conds, condTxt := condsOf(wr.call)
+		var setObj types.Object
+		wrongBranch := false
+		for _, c := range conds {
+			if c.expr == nil || c.loop {
+				continue
+			}
+			if m, key := mapMembershipExpr(info, fi.Decl, c.expr); m != nil && es(key) == elem+".ID" {
+				if c.truth {
+					wrongBranch = true
+				} else {
+					setObj = m
+				}
 			}
 		}
-		if deduped && guard == nil {
-			r.ok("PTH-C19a", name, cons, w.Pos(wr.call.Pos()), "unconditional write of a slice that an earlier loop filtered by a membership test keyed by ID", true)
-			newline := false
-			for _, st := range loop.Body.List {
-				if st.Pos() > wr.call.Pos() {
-					if e, ok := st.(*ast.ExprStmt); ok {
-						if call, ok := e.X.(*ast.CallExpr); ok && len(call.Args) >= 1 {
-							if tv, ok := info.Types[call.Args[len(call.Args)-1]]; ok && tv.Value != nil {
-								newline = newline || tv.Value.ExactString() == "10" || tv.Value.ExactString() == `"\n"`
-							}
+		newlineAfter := func() bool {
+			for _, w2 := range writes {
+				if w2.call.Pos() <= wr.call.Pos() {
+					continue
+				}
+				if _, txt := condsOf(w2.call); strings.Join(txt, "&&") != strings.Join(condTxt, "&&") {
+					continue
+				}
+				if tv, ok := info.Types[w2.call.Args[len(w2.call.Args)-1]]; ok && tv.Value != nil {
+					switch tv.Value.Kind() {
+					case constant.String:
+						if constant.StringVal(tv.Value) == "\n" {
+							return true
+						}
+					case constant.Int:
+						if v, _ := constant.Int64Val(tv.Value); v == '\n' {
+							return true
 						}
 					}
 				}
 			}
-			r.cond(newline, "PTH-C19a", name, "newline after content", w.Pos(wr.call.Pos()), "a newline write follows the content", "no newline is written after the content")
+			return false
+		}
+		if deduped && setObj == nil && !wrongBranch && len(condTxt) == 0 {
+			r.ok("PTH-C19a", name, cons, w.Pos(wr.call.Pos()), "unconditional write of a slice that an earlier loop filtered by a membership test keyed by ID", true)
+			r.cond(newlineAfter(), "PTH-C19a", name, "newline after content", w.Pos(wr.call.Pos()), "a newline write follows the content", "no newline is written after the content")
 			continue
 		}
-		if guard == nil || block == nil {
-			r.bad("PTH-C19a", name, cons, w.Pos(wr.call.Pos()), "the content is written unconditionally: a repeated ID is emitted more than once")
-			continue
-		}
-		setName, negatedOK := membershipTest(info, guard, elem)
-		if setName == "" || !negatedOK {
-			r.bad("PTH-C19a", name, cons, w.Pos(wr.call.Pos()), "the write is not guarded by a failed membership test on a set keyed by "+elem+".ID")
-			continue
-		}
-		// content write must be in the then-branch
-		inThen := guard.Body.Pos() <= wr.call.Pos() && wr.call.End() <= guard.Body.End()
-		if !inThen {
+		if wrongBranch {
 			r.bad("PTH-C19a", name, cons, w.Pos(wr.call.Pos()), "the write sits in the branch where the ID was already seen")
 			continue
 		}
-		r.ok("PTH-C19a", name, cons, w.Pos(wr.call.Pos()), "guarded by a failed membership test on "+setName+"["+elem+".ID]", true)
-		// update of the set in the same block
-		updated := false
-		newline := false
-		for _, st := range block.List {
-			if as, ok := st.(*ast.AssignStmt); ok && len(as.Lhs) == 1 {
-				if ix, ok := as.Lhs[0].(*ast.IndexExpr); ok && es(ix.X) == setName && es(ix.Index) == elem+".ID" {
-					if tv, ok := info.Types[as.Rhs[0]]; ok && tv.Value != nil && tv.Value.Kind() == constant.Bool && constant.BoolVal(tv.Value) {
-						updated = true
-					}
-					if _, isStruct := as.Rhs[0].(*ast.CompositeLit); isStruct {
-						updated = true
-					}
-				}
+		if setObj == nil {
+			if len(condTxt) == 0 {
+				r.bad("PTH-C19a", name, cons, w.Pos(wr.call.Pos()), "the content is written unconditionally: a repeated ID is emitted more than once")
+			} else {
+				r.bad("PTH-C19a", name, cons, w.Pos(wr.call.Pos()), "the write is not guarded by a failed membership test on a set keyed by "+elem+".ID (it is reached under {"+strings.Join(condTxt, ", ")+"})")
 			}
-			if st.Pos() > wr.call.Pos() {
-				if e, ok := st.(*ast.ExprStmt); ok {
-					if call, ok := e.X.(*ast.CallExpr); ok && len(call.Args) >= 1 {
-						if tv, ok := info.Types[call.Args[len(call.Args)-1]]; ok && tv.Value != nil {
-							switch tv.Value.Kind() {
-							case constant.String:
-								newline = newline || constant.StringVal(tv.Value) == "\n"
-							case constant.Int:
-								v, _ := constant.Int64Val(tv.Value)
-								newline = newline || v == '\n'
-							}
-						}
-					}
-				}
-			}
+			continue
 		}
-		r.cond(updated, "PTH-C19a", name, "set update "+setName+"["+elem+".ID] = true", w.Pos(guard.Pos()), "the ID is recorded in the same branch that emits it", "the ID is not recorded where it is emitted: later declarations with the same ID are emitted again")
-		r.cond(newline, "PTH-C19a", name, "newline after content", w.Pos(wr.call.Pos()), "a newline write follows the content in the same branch", "no newline is written after the content")
+		setName := setObj.Name()
+		r.ok("PTH-C19a", name, cons, w.Pos(wr.call.Pos()), "guarded by a failed membership test on "+setName+"["+elem+".ID]", true)
+		// update of the set under the same conditions as the write (whenever a content is emitted its ID is recorded,
+		// and it is not recorded before the test)
+		updated := false
+		ast.Inspect(loop.Body, func(y ast.Node) bool {
+			as, ok := y.(*ast.AssignStmt)
+			if !ok || len(as.Lhs) != 1 || len(as.Rhs) != 1 {
+				return true
+			}
+			ix, ok := as.Lhs[0].(*ast.IndexExpr)
+			if !ok || identOf(ix.X) == nil || objOf(info, identOf(ix.X)) != setObj || es(ix.Index) != elem+".ID" {
+				return true
+			}
+			if _, txt := condsOf(as); strings.Join(txt, "&&") != strings.Join(condTxt, "&&") {
+				return true
+			}
+			if tv, ok := info.Types[as.Rhs[0]]; ok && tv.Value != nil && tv.Value.Kind() == constant.Bool && constant.BoolVal(tv.Value) {
+				updated = true
+			}
+			if _, isStruct := as.Rhs[0].(*ast.CompositeLit); isStruct {
+				updated = true
+			}
+			return true
+		})
+		r.cond(updated, "PTH-C19a", name, "set update "+setName+"["+elem+".ID] = true", w.Pos(wr.call.Pos()), "the ID is recorded under the same conditions as the emission", "the ID is not recorded where it is emitted: later declarations with the same ID are emitted again")
+		r.cond(newlineAfter(), "PTH-C19a", name, "newline after content", w.Pos(wr.call.Pos()), "a newline write follows the content under the same conditions", "no newline is written after the content")
 	}
 	if nContent != 1 {
 		if nContent == 0 {
@@ -638,45 +657,3 @@ func checkEmission(w *World, r *Result, fi *FuncInfo, loop *ast.RangeStmt, slice
 	}
 }
 
-// membershipTest recognises `if seen := S[e.ID]; !seen`, `if !S[e.ID]`, `if _, ok := S[e.ID]; !ok`,
-// and the two-statement form `seen := S[e.ID]` + `if !seen`.
-func membershipTest(info *types.Info, guard *ast.IfStmt, elem string) (set string, ok bool) {
-	lookup := func(x ast.Expr) string {
-		ix, isIx := ast.Unparen(x).(*ast.IndexExpr)
-		if !isIx || es(ix.Index) != elem+".ID" {
-			return ""
-		}
-		if _, isMap := info.TypeOf(ix.X).Underlying().(*types.Map); !isMap {
-			return ""
-		}
-		return es(ix.X)
-	}
-	cond := ast.Unparen(guard.Cond)
-	neg, isNeg := cond.(*ast.UnaryExpr)
-	if !isNeg || neg.Op != token.NOT {
-		// `seen == false`
-		if be, ok := cond.(*ast.BinaryExpr); ok && be.Op == token.EQL && es(be.Y) == "false" {
-			cond = be.X
-		} else {
-			return "", false
-		}
-	} else {
-		cond = ast.Unparen(neg.X)
-	}
-	if s := lookup(cond); s != "" {
-		return s, true
-	}
-	id := identOf(cond)
-	if id == nil {
-		return "", false
-	}
-	if as, isAs := guard.Init.(*ast.AssignStmt); isAs && len(as.Rhs) == 1 {
-		last := identOf(as.Lhs[len(as.Lhs)-1])
-		if last != nil && last.Name == id.Name {
-			if s := lookup(as.Rhs[0]); s != "" {
-				return s, true
-			}
-		}
-	}
-	return "", false
-}
